@@ -111,7 +111,7 @@ class StandardizeOn(Preprocess):
         _mean = self.mean if self.mean is not None else _np.nanmean(traces, axis=0, dtype=precision)
         _std = self.std if self.std is not None else _np.nanstd(traces, axis=0, dtype=precision)
         try:
-            return (traces - _mean) / _std
+            return (traces.astype(precision) - _mean) / _std
         except ValueError:
             raise PreprocessError(f'Incompatible shapes between traces {traces.shape} and mean {_mean.shape} and/or std {_std.shape}.')
 
